@@ -77,12 +77,17 @@ AlphaInst ==   \* instance attributes: conditional / repeated self.x in __init__
 AlphaNoMember ==   \* targets that must not create members, next to genuine instance attributes of the same last name
   {<<"assign", "self">>, <<"assign", "selfann">>, <<"assign", "selfdeep">>, <<"assign", "selfdeep3">>, <<"assign", "selfsub">>,
    <<"assign", "tuple">>, <<"assign", "attr">>, <<"if", "other">>}
+AlphaInitMod ==   \* pk/__init__.py: the bare relative import at module level (skipped) and in class bodies / __init__ (ordinary)
+  {<<"import", "rel">>, <<"import", "from">>, <<"class", "none">>, <<"def", "none">>, <<"init", "-">>, <<"if", "other">>, <<"try", "-">>}
 AlphaAll == AlphaNoMember \cup AlphaInst \cup AlphaBind \cup AlphaCond \cup AlphaGuard \cup AlphaGuardDeep \cup AlphaDeco \cup AlphaImp \cup AlphaAttr
 AlphaSmoke == {<<"def", "none">>, <<"class", "none">>, <<"assign", "plain">>, <<"if", "TC">>, <<"if", "other">>, <<"init", "-">>,
                <<"def", "overload">>, <<"def", "staticmethod">>}
 
 \* pre: a fixed context (well-formed listing) that every program of the domain starts with; len counts its lines too
-DomP(name, pre, alpha, len, depth, names) == [name |-> name, pre |-> pre, alpha |-> alpha, len |-> len, depth |-> depth, names |-> names]
+\* mod: what the visited file is - "module" (pk/m.py or a lone m.py) or "init" (pk/__init__.py, the package itself)
+DomM(name, mod, pre, alpha, len, depth, names) ==
+  [name |-> name, mod |-> mod, pre |-> pre, alpha |-> alpha, len |-> len, depth |-> depth, names |-> names]
+DomP(name, pre, alpha, len, depth, names) == DomM(name, "module", pre, alpha, len, depth, names)
 Dom(name, alpha, len, depth, names) == DomP(name, <<>>, alpha, len, depth, names)
 L(k, x, n, d) == [k |-> k, x |-> x, n |-> n, d |-> d]
 InInit == <<L("class", "none", "f", 0), L("init", "-", "__init__", 1)>>                                          \* class f: def __init__(self):
@@ -99,7 +104,7 @@ QuickDomains ==
    Dom("attr", AlphaAttr \ {<<"assign", "classvar">>, <<"assign", "selfann">>}, 3, 2, {"f", "g"}),
    DomP("inst", InInit, AlphaInst \ {<<"class", "none">>, <<"init", "-">>}, 5, 3, {"f"}),
    DomP("inst2", InInitAfterClassAttr, AlphaInst \ {<<"class", "none">>, <<"init", "-">>}, 6, 3, {"f"}),
-   DomP("instnm", InInit, AlphaNoMember, 5, 3, {"f"})}
+   DomP("instnm", InInit, AlphaNoMember, 5, 3, {"f"}), DomM("initmod", "init", <<>>, AlphaInitMod, 3, 2, {"f", "g"})}
 ThoroughDomainsA ==
   {Dom("all", AlphaAll, 2, 1, {"f", "g"}), Dom("deco", AlphaDeco, 3, 2, {"f", "g"}), Dom("bind", AlphaBind \ {<<"import", "multi">>}, 4, 2, {"f", "g"}), Dom("bind3", AlphaBind, 3, 2, {"f", "g"}),
    Dom("cond", AlphaCond \ {<<"with", "-">>, <<"import", "from">>}, 5, 2, {"f"}), Dom("imp", AlphaImp \ {<<"import", "multi">>, <<"import", "frommulti">>}, 4, 2, {"f"}),
@@ -109,7 +114,8 @@ ThoroughDomainsB ==
    Dom("attr", AlphaAttr \ {<<"assign", "classvar">>, <<"assign", "selfann">>}, 4, 2, {"f", "g"}), Dom("attr3", AlphaAttr, 3, 2, {"f", "g"}),
    DomP("inst", InInit, AlphaInst \ {<<"class", "none">>, <<"init", "-">>}, 6, 3, {"f"}), DomP("instc", InInit, AlphaInst, 5, 3, {"f"}),
    DomP("inst2", InInitAfterClassAttr, AlphaInst \ {<<"class", "none">>, <<"init", "-">>}, 7, 3, {"f"}),
-   DomP("instnm", InInit, AlphaNoMember, 5, 3, {"f", "g"}), DomP("instnm6", InInit, AlphaNoMember, 6, 3, {"f"})}
+   DomP("instnm", InInit, AlphaNoMember, 5, 3, {"f", "g"}), DomP("instnm6", InInit, AlphaNoMember, 6, 3, {"f"}),
+   DomM("initmod", "init", <<>>, AlphaInitMod, 4, 2, {"f", "g"})}
 \* small domains in which each known defect shows (Strict = TRUE)
 DefectDomains == {Dom("smoke", AlphaSmoke, 3, 2, {"f"}), Dom("bind", AlphaBind \ {<<"import", "multi">>}, 3, 2, {"f"})}
 NameOrder == <<"f", "g", "h">>
@@ -181,7 +187,8 @@ ImpPath(x, n) ==
   CASE x = "mod" -> <<n>>                [] x = "dotted" -> <<n>>           \* import n / import n.sub   -> n
     [] x = "as" -> <<"zz", "sub">>       [] x = "from" -> <<"zz", n>>       \* import zz.sub as n / from zz import n
     [] x = "fromas" -> <<"zz", "orig">>  [] x = "star" -> <<"zz">>          \* from zz import orig as n / from zz import *
-    [] x = "multi" -> <<n>>              [] OTHER -> <<"zz", n>>            \* import n, other / from zz import n, other  (per name)
+    [] x = "multi" -> <<n>>              [] x = "frommulti" -> <<"zz", n>>  \* import n, other / from zz import n, other  (per name)
+    [] OTHER -> <<"pk", n>>                                                  \* "rel": from . import n   in pk/__init__.py
 ExportList(x) == CASE x = "empty" -> <<>> [] x = "one" -> <<"f">> [] x = "two" -> <<"f", "g">> [] OTHER -> <<"g">>
 AttrLabels(scopeKind, x) ==
   IF scopeKind = "module" THEN {"module-attribute"}
@@ -302,9 +309,16 @@ PlaceFunction ==
               ELSE IF CurFrame.t = "class" THEN Push("init", cursor, Line.d + 1) ELSE Push("skip", cursor, Line.d + 1)
   /\ UNCHANGED <<guarded, imps, exps, outcome>>
 
+\* visit_importfrom, first test of the loop: in a/__init__.py, `from . import b` at module level would make member b point at a.b,
+\* i.e. at itself: `not node.module and node.level == 1 and not name.asname and current.is_module and is_init_module` -> continue
+CyclicSubmoduleImport == Line.x = "rel" /\ dom.mod = "init" /\ CurFrame.t = "module"
+SkipSubmoduleImport ==
+  /\ Observe
+  /\ Visiting /\ Line.k = "import" /\ CyclicSubmoduleImport /\ Advance
+  /\ UNCHANGED <<stack, guarded, tree, imps, exps, stash, events, placed, outcome>>
 VisitImport ==        \* visit_import / visit_importfrom: imports map (not for *), Alias member, on_alias
   /\ Observe
-  /\ Visiting /\ Line.k = "import" /\ Advance
+  /\ Visiting /\ Line.k = "import" /\ ~CyclicSubmoduleImport /\ Advance
   \* `for name in node.names:` - imports map, Alias, set_member and on_alias once per imported name, in order
   /\ LET nm == IF Multi(Line) THEN <<Line.n, Other(Line.n)>> ELSE <<Line.n>>
          One(acc, a) == [I |-> IF Line.x = "star" THEN acc.I
@@ -395,8 +409,12 @@ BindScope(i) ==
   LET a == Scp(i) IN
   IF SelfAssign(P[i]) THEN (IF ActiveInit(a) THEN Scp(a) ELSE None)
   ELSE IF a = 0 THEN 0 ELSE IF P[a].k = "class" THEN a ELSE None
+\* `from . import n` at module level of pk/__init__.py binds n to the submodule pk.n itself - the member of that name is (or will be)
+\* that module, not an alias to it; anywhere else (class bodies) it is an ordinary import
+SubmoduleImport(i) == P[i].k = "import" /\ P[i].x = "rel" /\ dom.mod = "init" /\ BindScope(i) = 0
 Creates(i) ==      \* statements that bind a name to a new object of their own
-  \/ P[i].k \in {"class", "init", "import"}
+  \/ P[i].k \in {"class", "init"}
+  \/ P[i].k = "import" /\ ~SubmoduleImport(i)
   \/ P[i].k = "def" /\ P[i].x \notin {"overload", "setter"}
   \/ P[i].k = "assign" /\ P[i].x \notin NoMemberTargets
   \/ P[i].k = "all" /\ P[i].x # "aug"
@@ -427,7 +445,7 @@ Reach(T, fuel) == IF fuel = 0 THEN {m \in T : m.s = 0}
                   ELSE LET R == Reach(T, fuel - 1) IN {m \in T : m.s = 0 \/ \E c \in R : c.l = m.s /\ c.k \in {"class", "function"}}
 RefTree == Reach(RefAll, dom.depth + 1)
 LastImport(s, n) ==
-  LET S == {i \in 1..N : P[i].k = "import" /\ P[i].x # "star" /\ n \in BindNames(i) /\ BindScope(i) = s} IN IF S = {} THEN 0 ELSE MaxOf(S)
+  LET S == {i \in 1..N : P[i].k = "import" /\ P[i].x # "star" /\ ~SubmoduleImport(i) /\ n \in BindNames(i) /\ BindScope(i) = s} IN IF S = {} THEN 0 ELSE MaxOf(S)
 RefImports ==
   {[s |-> t[1], n |-> t[2], l |-> LastImport(t[1], t[2]), p |-> ImpPath(P[LastImport(t[1], t[2])].x, t[2])] : t \in {u \in Scopes \X dom.names : LastImport(u[1], u[2]) # 0}}
 RECURSIVE Concat(_)
@@ -496,7 +514,7 @@ Init ==
 Next ==
   \/ AddLine \/ VisitModule
   \/ LeaveIf \/ LeaveClass \/ LeaveOther \/ EndModule
-  \/ SkipLine \/ VisitClassDef \/ MakeProperty \/ StashOverload \/ AttachAccessor \/ PlaceFunction
+  \/ SkipLine \/ SkipSubmoduleImport \/ VisitClassDef \/ MakeProperty \/ StashOverload \/ AttachAccessor \/ PlaceFunction
   \/ VisitImport \/ HandleAttribute \/ VisitAugAssign \/ EnterIf \/ EnterElse \/ EnterExcept \/ EnterBlock
 Spec == Init /\ [][Next]_vars
 
@@ -544,7 +562,7 @@ EventsAccepted == (Ok /\ Demand({"init-local"})) => Final(Fold(Start, events \o 
 Pack(l) == <<l.k, l.x, l.n, l.d>>
 EmitCase ==
   (Emit /\ Done) =>
-    PrintT(<<"CASE", ToJson([dom |-> dom.name, prog |-> [i \in 1..Len(prog) |-> Pack(prog[i])], outcome |-> outcome, wf |-> res.wf, hz |-> res.hz,
+    PrintT(<<"CASE", ToJson([dom |-> dom.name, mod |-> dom.mod, submods |-> {P[i].n : i \in {j \in 1..N : SubmoduleImport(j)}}, prog |-> [i \in 1..Len(prog) |-> Pack(prog[i])], outcome |-> outcome, wf |-> res.wf, hz |-> res.hz,
                              ref |-> res.ref, rimps |-> res.rimps, rexps |-> res.rexps,
                              impl |-> res.impl, iimps |-> res.iimps, iexps |-> exps,
                              events |-> [q \in 1..Len(events) |-> [e |-> events[q].e, l |-> events[q].l, n |-> events[q].n]], flagok |-> flagok])>>)
